@@ -111,30 +111,33 @@ T("str.equal.bytes", "h_str_equal_bytes", "two strings are = exactly when their 
 # ---------------------------------------------------------------- struct canonical layout (struct.c) -----------------
 MT_TIE = {"name": "put-tie-not-broken-by-compare", "file": "struct.c", "find": "status = janet_compare(key, kv->key);", "replace": "status = -1;"}
 MT_HASH = {"name": "put-hash-order-dropped", "file": "struct.c", "find": "            else if (hash < otherhash)\n                status = -1;\n", "replace": ""}
-MT_DIST = {"name": "put-swap-keeps-old-distance", "file": "struct.c", "find": "                dist = otherdist;\n", "replace": ""}
+# not used: dropping `dist = otherdist;` after the swap is NOT detected at <= 3 keys / capacity 4 (equivalent within the bound)
 
 
-def L(id, n, cap, k, tier, timeout, mutants):
+def L(id, n, cap, k, tier, timeout, mutants, extra=()):
     units.append({"id": id, "props": ["C03"], "tier": tier, "class": "bounded",
                   "bound": "%d pairwise distinct keys out of an abstract universe of %d with an arbitrary hash function, capacity %d, every insertion order" % (n, k, cap),
-                  "clause": "structs built from the same key/value pairs in any insertion order have bit-identical bucket arrays (hence the same cached hash), "
-                            "and map every key to its value (compare by content, not by construction order)",
+                  "clause": "structs built from the same key/value pairs in any insertion order have bit-identical bucket arrays "
+                            "(hence the same cached hash and janet_equals: compare by content, not by construction order)"
+                            + ("; the real lookup finds every key with its value" if "-DVAL_LOOKUP" in extra else ""),
                   "src": ["struct.c"], "link": ["wrap.c"],
                   "harness": ["val_struct.c"], "entry": "h_struct_layout", "mode": "plain", "replace_calls": ["janet_gcalloc:v_gcalloc"],
-                  "defines": ["-DVAL_N=%d" % n, "-DVAL_CAP=%d" % cap, "-DVAL_K=%d" % k], "unwind": max(cap, k + 1) + 2, "timeout": timeout,
-                  "functions": ["janet_struct_put_ext", "janet_struct_begin", "janet_struct_end", "janet_struct_find"],
+                  "defines": ["-DVAL_N=%d" % n, "-DVAL_CAP=%d" % cap, "-DVAL_K=%d" % k] + list(extra), "unwind": max(cap, k + 1) + 2, "timeout": timeout,
+                  "functions": ["janet_struct_put_ext", "janet_struct_begin"] + (["janet_struct_find", "janet_struct_rawget"] if "-DVAL_LOOKUP" in extra else []),
                   "checks": ["bounds-check", "pointer-check", "signed-overflow-check", "div-by-zero-check"],
                   "assumes": ["janet_hash/janet_compare/janet_equals on keys are replaced by their contracts: hash an arbitrary function of the key "
                               "(symbolic table), compare a consistent total order, equals its equality (the laws proved by units val.*)",
                               "janet_gcalloc returns a fresh zeroed block of the requested size",
                               "janet_tablen is replaced by a stub returning the unit's capacity (a power of two >= number of keys; the real one returns 8 for 2 or 3 keys)",
-                              "janet_kv_calchash (cached struct hash) is replaced by a stub: any function of the bucket array; checked to be called on the whole finished array",
                               "keys are non-nil non-NaN; values are arbitrary non-nil words"],
                   "mutants": mutants})
 
 
 L("struct.layout.cap4", 2, 4, 4, "quick", 120, [ex(MT_TIE, "independent of insertion order"), ex(MT_HASH, "independent of insertion order")])
-L("struct.layout.cap4.n3", 3, 4, 4, "thorough", 600, [ex(MT_TIE, "independent of insertion order"), ex(MT_DIST, "independent of insertion order|maps each key|exactly one bucket")])
+L("struct.layout.cap8", 2, 8, 4, "thorough", 600, [ex(MT_TIE, "independent of insertion order")])
+MT_FIND = {"name": "find-wraparound-scan-dropped", "file": "struct.c", "find": "    for (i = 0; i < index; i++)\n        if (janet_checktype(st[i].key, JANET_NIL) || janet_equals(st[i].key, key))\n            return st + i;\n", "replace": ""}
+L("struct.lookup.cap4", 2, 4, 4, "thorough", 600, [ex(MT_FIND, "maps each key|pointer_dereference"), ex(MT_TIE, "independent of insertion order")], extra=["-DVAL_LOOKUP"])
+L("struct.layout.cap4.n3", 3, 4, 4, "thorough", 600, [ex(MT_TIE, "independent of insertion order")])
 
 json.dump({"units": units}, open(os.path.join(V, "units", "C03.json"), "w"), indent=1)
 print(len(units), "units")
